@@ -1208,6 +1208,48 @@ def d6_exit_and_ladders(chk: Check) -> None:
                          got, want))
 
 
+def d11_fallback_key_always_found(chk: Check) -> None:
+    """When no identity key is configured for an Array-of-Hashes the first
+    key of the record stands in.  For a non-empty record that fallback
+    *always* produces a key: it is one unconditional assignment under the
+    fallback guard.  A fallback that searches for a "suitable" key (the
+    first one holding a scalar, say) can come back empty-handed; the empty
+    key then matches no record, and a document compared with itself is
+    reported as n deletions plus n additions."""
+    prog = chk.prog
+    chk.rule("C06-D11", "under the first-key fallback of aoh_diff_key (and "
+             "its sibling aoh_merge_key) the key is assigned "
+             "unconditionally from the record's keys", floor=2)
+    for q in ("DifferConfig.aoh_diff_key", "MergerConfig.aoh_merge_key"):
+        fi = prog.func(q)
+        rets = [r for r in walk_local(fi.node) if isinstance(r, ast.Return)
+                and r.value is not None]
+        if not rets:
+            raise AnalysisError(q + ": return not found")
+        rv = rets[-1].value
+        key = src(rv.elts[0]) if isinstance(rv, ast.Tuple) else src(rv)
+        arms = [st for st in fi.node.body if isinstance(st, ast.If) and
+                "len(" in src(st.test) and "not " + key in src(st.test)]
+        if len(arms) != 1:
+            raise AnalysisError(q + ": fallback arm not found")
+        arm = arms[0]
+        direct = [st for st in arm.body if isinstance(st, ast.Assign) and
+                  src(st.targets[0]) == key]
+        text = "{}: fallback assignment of `{}`".format(fi.short, key)
+        if direct:
+            chk.ok("C06-D11", fi, direct[0], text,
+                   "unconditional: " + src(direct[0].value))
+        else:
+            nested = [a for a in ast.walk(arm) if isinstance(a, ast.Assign)
+                      and src(a.targets[0]) == key]
+            chk.fail("C06-D11", fi, (nested or [arm])[0], text,
+                     "the key is assigned only under a further condition: "
+                     "a record none of whose attributes qualifies leaves "
+                     "the identity key empty, so no record is paired with "
+                     "its counterpart (every one is reported deleted and "
+                     "added)")
+
+
 def run(chk: Check) -> None:
     d1_entries(chk)
     d2_dispatch(chk)
@@ -1232,4 +1274,5 @@ def run(chk: Check) -> None:
     implicit_ordering_rule(chk, "C06-D10",
                            chk.prog.funcs_in("yamlpath/differ/differ.py"), 10)
     d5_both_sides(chk)
+    d11_fallback_key_always_found(chk)
     d6_exit_and_ladders(chk)
